@@ -2,6 +2,7 @@ package main
 
 import (
 	"fmt"
+	"go/ast"
 	"go/token"
 	"go/types"
 	"sort"
@@ -117,7 +118,7 @@ func shortName(key string) string {
 // countBuiltin: the effectful builtins take part in calls("builtin:<name>") like ordinary callees.
 func countBuiltin(e *Enc, name string) {
 	switch name {
-	case "append", "copy", "delete", "close":
+	case "append", "copy", "delete", "close", "clear":
 		if e.fc != nil {
 			e.bumpCallCount("builtin:" + name)
 		}
@@ -983,7 +984,9 @@ func (e *Enc) callCount(h *HeapState, suffix string) Term {
 	if e.callQueries == nil {
 		e.callQueries = map[string]bool{}
 	}
-	e.callQueries[suffix] = true
+	if !e.noCallsQuery {
+		e.callQueries[suffix] = true
+	}
 	var ts []Term
 	var keys []string
 	for k := range e.callKeys {
@@ -1042,6 +1045,16 @@ func callKeyOf(cc *ssa.CallCommon) string {
 	case *ssa.UnOp:
 		if fv, ok := v.X.(*ssa.FreeVar); ok {
 			return "dyn:" + fv.Name()
+		}
+	}
+	// a function value held in a named local (e.g. the element variable of a range loop)
+	if refs := cc.Value.Referrers(); refs != nil {
+		for _, r := range *refs {
+			if d, ok := r.(*ssa.DebugRef); ok && !d.IsAddr {
+				if id, ok := d.Expr.(*ast.Ident); ok {
+					return "dyn:" + id.Name
+				}
+			}
 		}
 	}
 	return "dynamic call"
